@@ -411,7 +411,7 @@ def check_terms(prop, tier):
                          ["the evaluator shares primitive crates (hmac, sha2, hkdf, blake2, chacha20, aes, ed25519-dalek, p384, ring) with the library but no protocol code",
                           "official vectors (fixtures/vectors.json, extracted from the PASETO test-vector files shipped in the repository's tests): v1-v4 local 9 each, v2-v4 public 3 each; v1.public has no deterministic vector",
                           "TLA+ fixes the structure of the algorithm; primitive semantics come from the interpreter"],
-                         time.time() - t0, s["nviol"] + len(s2["violations"]))
+                         time.time() - t0, s["nviol"] + len(s2["violations"]), level="exploration")
     return 1 if fresh > 0 else 0
 
 
